@@ -499,8 +499,34 @@ func (x *Exec) callDynamic(bc *blockCtx, in ssa.Instruction, fv *Val, cc *ssa.Ca
 	h := x.getHeap(bc.st, "G_calls")
 	bc.st.heaps["G_calls"] = x.sto(h, ft, x.b.Add(x.sel(h, ft, "Int"), x.b.Int(1)))
 	pure := x.isPureFuncValue(bc.fr, cc.Value)
+	defer func() {
+		// ghost counters attached to calls of a function-valued parameter
+		prm, ok := cc.Value.(*ssa.Parameter)
+		if !ok || bc.fr.fc == nil || x.spec > 0 {
+			return
+		}
+		for _, cl := range bc.fr.fc.CountCall[prm.Name()] {
+			vars := map[string]*Val{}
+			for k, v := range bc.fr.params {
+				vars[k] = v
+			}
+			for k, a := range args {
+				vars[fmt.Sprintf("arg%d", k)] = a
+			}
+			if x.lastCallResult != nil {
+				vars["result"] = x.lastCallResult
+			}
+			ce := &CEnv{x: x, fr: bc.fr, st: bc.st, old: bc.fr.entry, vars: vars, lets: bc.fr.lets, guard: bc.reach, fc: bc.fr.fc, env: bc.env, hypo: true}
+			cond := x.eval(ce, cl.E)
+			key := "G_" + cl.Label
+			x.registerGhost(key)
+			bc.st.heaps[key] = x.b.Add(x.getHeap(bc.st, key), x.b.Ite(cond.T, x.b.Int(1), x.b.Int(0)))
+		}
+	}()
+	x.lastCallResult = nil
 	if pure {
 		res := x.applyFuncValue(ft, sig, args)
+		x.lastCallResult = res
 		// behaviour assumed of the callback (every closure passed for it is
 		// verified against the same clause through its own contract)
 		if prm, ok := cc.Value.(*ssa.Parameter); ok && bc.fr.fc != nil {
